@@ -45,6 +45,42 @@ ArrayByPressure(arr, Pp, LP) ==
     [l \in 1..Len(LP) |-> Pwl(LP[l], Pp, [i \in 1..Len(arr) |-> Q(arr[i])])]
 Reversed(s) == [i \in 1..Len(s) |-> s[Len(s) + 1 - i]]
 
+\* ------------------------------------------------------------------------ File
+\* A text table as TemperatureFile reads it (documented options: skiprows, temp_col, press_col, temp_units,
+\* press_units, delimiter, reverse).  f = [pu, tu, lay, skip, delim, order]:
+\*   lay    index into FileLayouts = <<press_col, temp_col, number of columns>> (0-based columns)
+\*   tu     Kelvin per file temperature unit (K 1, kK 1000): a temperature cell holds T / tu
+\*   pu     decades per file pressure unit (Pa 0, mbar = hPa 2, kPa 3, bar 5): a pressure cell holds the
+\*          log10 of the pressure in file units, (log10 P[Pa]) - pu
+\*   order  "boa": first row is the surface; "toa": first row is the top and the file is read with reverse
+\*   skip, delim  header lines and cell separator: layout only, no effect on the numbers
+\* Every other cell is filler.  Reading converts back: ONLY the temperature column is multiplied by tu and
+\* ONLY the pressure column is shifted by pu; the profile is then the array profile of the converted
+\* columns.  Rule # "spec" are deliberately wrong readers (expected counterexamples).
+FileLayouts == << <<0, 1, 2>>, <<1, 0, 2>>, <<2, 0, 3>>, <<0, 2, 3>>, <<1, 3, 4>> >>
+FileFiller == Q(7)
+FileTable(arr, pp, f) ==
+    LET lay  == FileLayouts[f.lay]
+        rows == [i \in 1..Len(arr) |-> [c \in 1..lay[3] |->
+                    IF c - 1 = lay[2] THEN RDiv(Q(arr[i]), Q(f.tu))
+                    ELSE IF c - 1 = lay[1] /\ pp # <<>> THEN Q(pp[i] - f.pu)
+                    ELSE FileFiller]]
+    IN  IF f.order = "toa" THEN Reversed(rows) ELSE rows
+FileRows(tab, f) == IF f.order = "toa" THEN Reversed(tab) ELSE tab
+FileReadT(tab, f, haspp, rule) ==
+    LET rows == FileRows(tab, f)
+        col  == FileLayouts[f.lay][IF rule = "file_columns_swapped" /\ haspp THEN 1 ELSE 2] + 1
+    IN  [i \in 1..Len(rows) |->
+           LET t == RMul(rows[i][col], Q(IF rule = "file_tunit_ignored" THEN 1 ELSE f.tu))
+           IN  IF rule = "file_punit_on_both" /\ haspp THEN RMul(t, Q(Pow(10, f.pu))) ELSE t]
+FileReadP(tab, f) ==        \* integer log10 of the pressure in Pa
+    LET rows == FileRows(tab, f)
+    IN  [i \in 1..Len(rows) |-> rows[i][FileLayouts[f.lay][1] + 1][1] + f.pu]
+FileProfile(tab, f, haspp, LP, rule) ==
+    LET T == FileReadT(tab, f, haspp, rule)
+    IN  IF haspp THEN [l \in 1..Len(LP) |-> Pwl(LP[l], FileReadP(tab, f), T)]
+        ELSE ArrayLin(T, Len(LP))
+
 \* --------------------------------------------------------------------- Rodgers
 RodgersC(K, hinv, i, j) == Pow2Neg(hinv * Abs(K[i] - K[j]))
 RodgersProfile(K, hinv, T, variant) ==
